@@ -78,7 +78,7 @@ struct State {
   } blocks;
   std::unordered_map<const void*, uint64_t> live;   // user pointer -> id (never iterated for output)
   uint64_t live_bytes = 0;
-  uint64_t t_requests[SA_MAX_TASKS] = {0}, t_live[SA_MAX_TASKS] = {0}, t_xor[SA_MAX_TASKS] = {0}, t_seq[SA_MAX_TASKS] = {0}, t_bytes[SA_MAX_TASKS] = {0}, t_maxreq[SA_MAX_TASKS] = {0}, t_realloc_limit[SA_MAX_TASKS] = {0};
+  uint64_t t_requests[SA_MAX_TASKS] = {0}, t_live[SA_MAX_TASKS] = {0}, t_xor[SA_MAX_TASKS] = {0}, t_seq[SA_MAX_TASKS] = {0}, t_bytes[SA_MAX_TASKS] = {0}, t_maxreq[SA_MAX_TASKS] = {0}, t_realloc_limit[SA_MAX_TASKS] = {0}, t_request_limit[SA_MAX_TASKS] = {0};
   OpWindow win[SA_MAX_TASKS];
   Arena arena[2];
   bool arenas_ready = false;
@@ -107,7 +107,8 @@ bool should_refuse(OpWindow& w, bool is_realloc, size_t size) {
   }
   if (refuse) { sa_fired[kind]++; w.refused_injected++; }
   if (!refuse && size > (S.t_maxreq[TK()] ? S.t_maxreq[TK()] : S.knobs.max_request)) { refuse = true; sa_fired_toolarge++; }
-  if (!refuse && is_realloc && S.t_realloc_limit[TK()] && w.reallocs >= S.t_realloc_limit[TK()]) { refuse = true; sa_fired_toolarge++; }   // a harness budget on resizes within one window
+  if (!refuse && is_realloc && S.t_realloc_limit[TK()] && w.reallocs >= S.t_realloc_limit[TK()]) { refuse = true; sa_fired_toolarge++; }
+  if (!refuse && S.t_request_limit[TK()] && w.requests >= S.t_request_limit[TK()]) { refuse = true; sa_fired_toolarge++; }   // a harness budget on requests within one window   // a harness budget on resizes within one window
   return refuse;
 }
 
@@ -200,7 +201,7 @@ void sa_reset(const SaKnobs& k) {
     else if (S.knobs.backend == BE_DIRECT) free(b.user);
     b.live = false;
   }
-  S.blocks.clear(); S.live.clear(); S.live_bytes = 0; for (int i = 0; i < SA_MAX_TASKS; i++) S.t_requests[i] = S.t_live[i] = S.t_xor[i] = S.t_seq[i] = S.t_bytes[i] = S.t_maxreq[i] = S.t_realloc_limit[i] = 0; S.arena_freed.clear();
+  S.blocks.clear(); S.live.clear(); S.live_bytes = 0; for (int i = 0; i < SA_MAX_TASKS; i++) S.t_requests[i] = S.t_live[i] = S.t_xor[i] = S.t_seq[i] = S.t_bytes[i] = S.t_maxreq[i] = S.t_realloc_limit[i] = S.t_request_limit[i] = 0; S.arena_freed.clear();
   for (auto& w : S.win) w = OpWindow();
   S.knobs = k;
   if (k.backend == BE_ARENA) {
@@ -213,6 +214,7 @@ void sa_reset(const SaKnobs& k) {
 const SaKnobs& sa_knobs() { return S.knobs; }
 void sa_set_max_request(uint64_t n) { S.t_maxreq[TK()] = n; }
 void sa_set_realloc_limit(uint64_t n) { S.t_realloc_limit[TK()] = n; }
+void sa_set_request_limit(uint64_t n) { S.t_request_limit[TK()] = n; }
 uint64_t sa_max_request() { uint64_t o = S.t_maxreq[TK()]; return o ? o : S.knobs.max_request; }
 
 void sa_begin(const FaultSpec& f) {
